@@ -22,7 +22,8 @@ import (
 // the virtual network: linger, TCP_USER_TIMEOUT).
 //
 // alphabet  direction (backend->client | client->backend) x socket buffer {64, 4096} x stream length
-//           {3 buffers + 1, 40000} x the receiver starts reading after {0 s, 11 s, 61 s, 9 min} (idle timeout 10 min)
+//           {3 buffers + 1, 40000} x the receiver starts reading after {0 s, 11 s, 61 s, 9 min} x idle timeout 10 min |
+//           0 (connections never time out)
 // bound     all schedules P0 F1 (quick) / P1 F1 (thorough)
 // oracle    the receiver gets exactly the bytes sent, then end-of-stream; afterwards the other direction
 //           still carries data
@@ -33,6 +34,7 @@ func c05slowBody() {
 	window := []int{64, 4096}[sched.Choose(sched.ClsInput, 2, "socket-buffer")]
 	long := sched.Choose(sched.ClsInput, 2, "length")
 	stall := []time.Duration{0, 11 * time.Second, 61 * time.Second, 9 * time.Minute}[sched.Choose(sched.ClsInput, 4, "stall")]
+	noIdle := sched.Choose(sched.ClsInput, 2, "idle timeout") == 1 // idle_timeout: 0s = connections never time out
 	n := 3*window + 1
 	if long == 1 {
 		n = 40000
@@ -50,7 +52,11 @@ func c05slowBody() {
 			backend.Label = "backend"
 		}
 	})
-	p := vfTCPProc(vfTCPConfig(service.LoadBalancePolicy_ROUND_ROBIN, 0), host.New(backendAddr))
+	cfg := vfTCPConfig(service.LoadBalancePolicy_ROUND_ROBIN, 0)
+	if noIdle {
+		cfg.IdleTimeout = vfDur(0)
+	}
+	p := vfTCPProc(cfg, host.New(backendAddr))
 	p.Start()
 	sched.WaitQuiescent()
 	client, err := vnet.DialConn(vfTCPAddr)
@@ -87,6 +93,9 @@ func c05slowBody() {
 	sched.GoNamed("receiver", func() { _, rerr = io.Copy(&got, dst); done = true })
 	sched.WaitQuiescent()
 	tag := fmt.Sprintf("%s, socket buffers of %d bytes, %d bytes, receiver starts reading after %v", names, window, n, stall)
+	if noIdle {
+		tag += ", idle timeout 0 (none)"
+	}
 	switch {
 	case !done:
 		sched.Fail("stream-never-ends / slow receiver", fmt.Sprintf("%s: %d bytes arrived, no end-of-stream", tag, got.Len()))
@@ -115,5 +124,107 @@ func init() {
 			b = sched.Bounds{P: 1, F: 1}
 		}
 		return sched.Config{Bounds: b, Iterative: true, MaxSteps: 400000}, c05slowBody
+	}})
+}
+
+// ---------------------------------------------------------------------------
+// C05 (S) several clients arrive at the same moment (they wait in the listener's accept queue together) and are
+// relayed to an echoing backend.
+//
+// alphabet  2 or 3 clients, each sending its own 40-byte pattern and half-closing
+// bound     all schedules P1 F1 (quick) / P2 F1 (thorough) from the moment the clients connect
+// oracle    every client reads back exactly its own bytes, then end-of-stream; every backend connection carried the
+//           bytes of exactly one client
+// ---------------------------------------------------------------------------
+
+func c05arrivalsBody() {
+	sched.SetQuiet(true)
+	nc := 2 + sched.Choose(sched.ClsInput, 2, "clients")
+	restore := proc.VerifSetListenFunc(vnet.Listen)
+	sched.OnReset(restore)
+	backendAddr := "10.1.0.1:80"
+	ln, _ := vnet.Listen("tcp", backendAddr)
+	var seen [][]byte
+	sched.GoServer("backend", func() {
+		for {
+			c, err := ln.Accept()
+			if err != nil {
+				return
+			}
+			vc := c.(*vnet.VConn)
+			vc.Label = "backend"
+			idx := len(seen)
+			seen = append(seen, nil)
+			sched.GoServer("backend-conn", func() {
+				buf := make([]byte, 64)
+				for {
+					n, err := vc.Read(buf)
+					if n > 0 {
+						seen[idx] = append(seen[idx], buf[:n]...)
+						vc.Write(buf[:n])
+					}
+					if err != nil {
+						vc.Close()
+						return
+					}
+				}
+			})
+		}
+	})
+	p := vfTCPProc(vfTCPConfig(service.LoadBalancePolicy_ROUND_ROBIN, 0), host.New(backendAddr))
+	p.Start()
+	sched.WaitQuiescent()
+	sched.SetQuiet(false)
+	clients := make([]*vnet.VConn, nc)
+	got := make([]bytes.Buffer, nc)
+	done := make([]bool, nc)
+	for i := 0; i < nc; i++ {
+		c, err := vnet.DialConn(vfTCPAddr)
+		if err != nil {
+			sched.Fail("harness-dial", err.Error())
+			return
+		}
+		c.Label = "client"
+		clients[i] = c
+	}
+	for i := 0; i < nc; i++ {
+		i := i
+		sched.GoNamed(fmt.Sprintf("client%d", i), func() {
+			clients[i].Write(pattern(40, byte(16*(i+1))))
+			clients[i].CloseWrite()
+			io.Copy(&got[i], clients[i])
+			done[i] = true
+		})
+	}
+	sched.WaitQuiescent()
+	sched.SetQuiet(true)
+	for i := 0; i < nc; i++ {
+		want := pattern(40, byte(16*(i+1)))
+		switch {
+		case !done[i]:
+			sched.Fail("stream-never-ends / clients arriving together", fmt.Sprintf("%d clients: client %d read %d bytes and no end-of-stream", nc, i, got[i].Len()))
+		case !bytes.Equal(got[i].Bytes(), want):
+			sched.Fail("bytes-differ / clients arriving together", fmt.Sprintf("%d clients: client %d sent %x and read back %x", nc, i, want, got[i].Bytes()))
+		}
+	}
+	for bi, b := range seen {
+		ok := len(b) == 0
+		for i := 0; i < nc; i++ {
+			ok = ok || bytes.Equal(b, pattern(40, byte(16*(i+1))))
+		}
+		if !ok {
+			sched.Fail("backend-connection-carries-mixed-streams / clients arriving together", fmt.Sprintf("%d clients: backend connection %d received %x", nc, bi, b))
+		}
+	}
+	sched.SetOutcome(fmt.Sprint(nc))
+}
+
+func init() {
+	sched.Register(&sched.Scenario{Name: "C05/arrivals", Setup: func(tier string) (sched.Config, func()) {
+		b := sched.Bounds{P: 1, F: 1}
+		if tier == "thorough" {
+			b = sched.Bounds{P: 2, F: 1}
+		}
+		return sched.Config{Bounds: b, Iterative: true, MaxSteps: 400000}, c05arrivalsBody
 	}})
 }
